@@ -114,6 +114,8 @@ impl NumSem {
             "add" => x + y, "sub" => x - y, "mul" => x * y, "div" => x / y, "mod" => x % y, "pow" => x.powf(y),
             _ => return Err(Stop::Unspec("UnknownBinary")),
         };
+        if op == "div" { super::f64sem::free_zero(&self.flags, &[y], v, false)?; }
+        if op == "pow" { super::f64sem::free_zero(&self.flags, &[x], v, false)?; }
         Ok(either(w, v))
     }
 
@@ -210,6 +212,12 @@ impl Sem for NumSem {
                     let mut out: Vec<NV> = Vec::new();
                     for a in &args { for v in &a.0 { if num_eq(v, &m) && !out.contains(v) { out.push(*v); } } }
                     return Ok(NAlt(out));
+                }
+                // the mean of Integers is exact when it is an Integer (Aggregates!Agg: rat = DSum / Len with denominator 1)
+                if func == "Avg" && vs.iter().all(|v| matches!(v, NV::I(_))) {
+                    let sum: i128 = vs.iter().map(|v| match v { NV::I(i) => *i, NV::F(_) => 0 }).sum();
+                    let n = vs.len() as i128;
+                    if n > 0 && sum % n == 0 && fits(w, sum / n) { return Ok(NAlt(vec![NV::I(sum / n)])); }
                 }
                 // means: exact when every value is a small integer or dyadic, else tolerance
                 let big = vs.iter().any(|v| match v { NV::I(i) => i.abs() > (1i128 << 52), NV::F(_) => false });
